@@ -253,6 +253,15 @@ func regexpMatches(regexp *regexp.Regexp, base, rPath string) []string {
 			start--
 		}
 
+		// (the base was matched case-insensitively and after cleaning:
+		// the raw path can be shorter than it)
+		if start > len(rPath) {
+			start = len(rPath)
+		}
+		if start < 0 {
+			start = 0
+		}
+
 		matches := regexp.FindStringSubmatch(rPath[start:])
 
 		// When processing a rewrite rule, the matching is done with an unescaped
